@@ -55,9 +55,57 @@ class OrderTaint:
         self.ret = set()          # body ids whose return value is order-tainted
         self.tl = {}              # body id -> {local: (reason line)}
 
+    KEYED = ('sorted_by_key', 'sort_by_key', 'sorted_by_cached_key', 'sort_by_cached_key', 'sorted_unstable_by_key',
+             'sort_unstable_by_key', 'min_by_key', 'max_by_key')
+
+    def _partial_key_sort(self, b, t, short):
+        """A keyed sort / selection whose key is not the whole element (nor the unique first component of a map entry) leaves
+        ties in the order the elements arrived in - for a hash iteration, the hash order."""
+        if short not in self.KEYED or len(t[3]) < 2 or t[3][1][0] not in ('c', 'm'):
+            return False
+        ct = b.locals[t[3][1][1].local]
+        if ct.k != 'closure' or ct.id not in self.prog.bodies:
+            return False
+        key_ty = strip_refs(self.prog.bodies[ct.id].locals[0])
+        # element type: the single generic argument of the result (IntoIter<T>, Option<T>) or of the receiver (Vec<T>)
+        cands = []
+        if t[4] is not None:
+            cands.append(strip_refs(b.locals[t[4].local]))
+        if t[3][0][0] in ('c', 'm'):
+            cands.append(strip_refs(b.locals[t[3][0][1].local]))
+        elem = None
+        for c in cands:
+            if c.k in ('adt', 'slice', 'arr') and c.args:
+                elem = strip_refs(c.args[0])
+                break
+        if elem is None:
+            return False
+        uniq = [elem.s]
+        if elem.k == 'tup' and elem.args:
+            uniq.append(strip_refs(elem.args[0]).s)      # (K, V) of a map entry: K is unique
+        return key_ty.s not in uniq
+
     def analyse(self, b):
         taint = dict(self.tl.get(b.id, {}))
         changed_any = False
+        # in-place sorts: uses of the sorted local that the sort dominates no longer carry the hash order
+        sorts = {}
+        for bi0, bl0 in enumerate(b.blocks):
+            t0 = bl0.term
+            if not bl0.cleanup and t0[0] == 'call' and t0[3] and (callee(t0)[1] or '').split('::')[-1] in SORTS \
+                    and not self._partial_key_sort(b, t0, (callee(t0)[1] or '').split('::')[-1]):
+                r0, _p0 = operand_root(b, t0[3][0])
+                for _d in range(4):     # `v.sort()` on a Vec goes through `DerefMut::deref_mut(&mut v)`
+                    sd0 = single_def(b, r0) if r0 is not None else None
+                    if sd0 and sd0[1] == 'term' and sd0[2][3] and (callee(sd0[2])[1] or '').split('::')[-1] in (
+                            'deref_mut', 'deref', 'as_mut_slice', 'as_mut', 'borrow_mut', 'as_slice'):
+                        r0, _p0 = operand_root(b, sd0[2][3][0])
+                    else:
+                        break
+                if r0 is not None:
+                    sorts.setdefault(r0, []).append(bi0)
+        cfg = cfg_of(b) if sorts else None
+        cur = [0]
         for _ in range(30):
             changed = False
 
@@ -70,14 +118,18 @@ class OrderTaint:
             def op_t(o):
                 if o[0] not in ('c', 'm'):
                     return None
+                r, _ = root_local(b, o[1].local)
+                for x in (o[1].local, r):
+                    if x in sorts and cfg.nodes_dominate(sorts[x], cur[0]) and cur[0] not in sorts[x]:
+                        return None
                 if o[1].local in taint:
                     return taint[o[1].local]
-                r, _ = root_local(b, o[1].local)
                 return taint.get(r)
             # loops driven by a tainted iterator: blocks inside
             for bi, bl in enumerate(b.blocks):
                 if bl.cleanup:
                     continue
+                cur[0] = bi
                 for st in bl.stmts:
                     if st[0] != 'a':
                         continue
@@ -101,7 +153,7 @@ class OrderTaint:
                 if short in SOURCES and args and args[0][0] in ('c', 'm') and _is_hash(b.locals[args[0][1].local]):
                     mark(dl, f'iteration of a {strip_refs(b.locals[args[0][1].local]).name.split("::")[-1].split("<")[0]} at line {t[7]}')
                     continue
-                if short in SANITISERS or short in SORTS:
+                if (short in SANITISERS or short in SORTS) and not self._partial_key_sort(b, t, short):
                     continue
                 tainted_arg = None
                 for o in args:
@@ -189,4 +241,100 @@ def run(prog, tier, repo):
     res.floor('error-report call sites inspected', n_sinks, 40)
     res.floor('hash-collection iterations in scope', n_sources, 8)
     res.analysed['functions_returning_hash_order'] = sorted(prog.bodies[i].name for i in ot.ret)
+    return [res]
+
+
+# ---------------------------------------------------------------------------------------------------------------------
+# INTERN-ORDER (C12). Identifiers longer than 15 bytes live in the heap's string table and `PStr`'s `Ord` compares their
+# table index, i.e. the order in which they were interned. Diagnostics list and pick names by that order (`sorted()`,
+# `BTreeSet<PStr>`, `min()`), so the rendered text is a function of the interning order. Necessary condition: in the function
+# that renders the diagnostics of a compilation, no call that can intern strings and receives an element of a hash-ordered
+# iteration runs before the rendering - otherwise the interning order, and with it the text, follows the per-process seed.
+
+def run_intern_order(prog, tier, repo):
+    from ..callgraph import body_refs
+    res = RuleResult('INTERN-ORDER', 'C12: before diagnostics are rendered, strings are never interned in the iteration order of a '
+                     'HashMap / HashSet (long identifiers are ordered by interning index, and diagnostics list names in that order)')
+    interners = {b.id for b in prog.bodies.values() if b.crate == 'samlang_heap' and b.kind != 'closure'
+                 and '::Heap::alloc_' in b.name and '::tests' not in b.name}
+    if len(interners) < 2:
+        res.cannot_decide('the interning functions of the heap (samlang_heap::Heap::alloc_*)')
+        return [res]
+    reach = {}
+
+    def reaches_intern(i, depth=0, seen=None):
+        if i in interners:
+            return True
+        if i in reach:
+            return reach[i]
+        seen = seen if seen is not None else set()
+        if i in seen or depth > 12:
+            return False
+        seen.add(i)
+        b = prog.bodies.get(i)
+        r = False
+        if b is not None:
+            for c in list(body_refs(b)) + prog.closures_of.get(i, []):
+                if reaches_intern(c, depth + 1, seen):
+                    r = True
+                    break
+        if depth == 0:
+            reach[i] = r
+        return r
+
+    def is_mut_heap(t):
+        return t.k == 'ref' and t.extra and strip_refs(t).k == 'adt' and strip_refs(t).name == 'samlang_heap::Heap'
+    ot = OrderTaint(prog)
+    ot.bodies = [b for b in prog.bodies.values() if b.crate in ('samlang_compiler', 'samlang_cli') and '::tests' not in b.name]
+    n_render = 0
+    for b in sorted(ot.bodies, key=lambda x: x.name):
+        renders = [bi for bi, bl in enumerate(b.blocks) if not bl.cleanup and bl.term[0] == 'call'
+                   and 'ErrorSet::pretty_print_error_messages' in (callee(bl.term)[1] or '')]
+        if not renders:
+            continue
+        n_render += 1
+        cfg = cfg_of(b)
+        found = False
+        # the body itself and the closures it builds before rendering (`measure_time(.., || { parse loop })`)
+        scan = [(b, bi, bl) for bi, bl in enumerate(b.blocks)]
+        for c in prog.closures_of.get(b.id, []):
+            built = [bi for bi, bl in enumerate(b.blocks) for st in bl.stmts
+                     if st[0] == 'a' and st[2][0] == 'agg' and st[2][1][0] == 'closure' and st[2][1][1] == c]
+            if any(r in cfg.reachable(x) for x in built for r in renders):
+                scan += [(prog.bodies[c], None, bl) for bl in prog.bodies[c].blocks]
+        taints = {}
+        for fb, bi, bl in scan:
+            t = bl.term
+            if bl.cleanup or t[0] != 'call':
+                continue
+            if fb.id not in taints:
+                taints[fb.id] = ot.analyse(fb)
+            taint = taints[fb.id]
+            cid, nm = callee(t)
+            if not any(o[0] in ('c', 'm') and is_mut_heap(fb.locals[o[1].local]) for o in t[3]):
+                continue
+            if not (cid and reaches_intern(cid)):
+                continue
+            why = None
+            for o in t[3]:
+                if o[0] in ('c', 'm'):
+                    r, _ = root_local(fb, o[1].local)
+                    w = taint.get(o[1].local) or taint.get(r)
+                    if w:
+                        why = w
+            if not why:
+                continue
+            if bi is not None and not any(r in cfg.reachable(bi) for r in renders):
+                continue
+            found = True
+            k = sum(1 for i in res.instances if i.key.startswith(f'intern:{b.name}:')) + 1
+            res.violation(f'intern:{b.name}:{(nm or "?").split("::")[-1]}#{k}', fb.loc(t[7]),
+                          f'{b.name} calls {nm} with the heap and an element of a hash-ordered iteration ({why}) before it renders '
+                          f'the diagnostics: strings are interned in an order that changes with the process\'s hash seed, identifiers '
+                          f'longer than 15 bytes compare by interning index, and every diagnostic that sorts or picks names '
+                          f'(missing members, missing fields, the non-exhaustive match example) prints them in that order')
+        if not found:
+            res.ok(f'intern:{b.name}', b.loc(), 'no hash-ordered interning before the diagnostics are rendered')
+    res.floor('functions rendering the diagnostics of a compilation', n_render, 1)
+    res.analysed['interning_functions'] = sorted(prog.bodies[i].name for i in interners)
     return [res]
